@@ -11,9 +11,10 @@ one() {
   cd $WT
   if git apply $D/patch.diff 2>/dev/null; then
     if [ "$ID" = "C07-m2" ]; then export VERIF_MUTANT_TABLES=1; else unset VERIF_MUTANT_TABLES; fi
-    OUT=$(/verif/tools/try_mutant.sh $WT $PID quick 2>&1 | grep -E "^\[C|VIOLATION|KNOWN")
+    OUT=$(/verif/tools/try_mutant.sh $WT $PID quick 2>&1 </dev/null | grep -E "^\[C|VIOLATION|KNOWN")
     if echo "$OUT" | grep -q "VIOLATION" ; then
       if echo "$OUT" | grep "VIOLATION" | grep -qv "no-failing-input-found"; then RES="detected (failing input)"; else RES="detected (no-failing-input-found)"; fi
+      if echo "$OUT" | grep -q "anchored source differs"; then RES="$RES, by the deepened pass"; fi
     else RES="NOT detected by $PID quick"; fi
   else
     RES="patch no longer applies to HEAD"; OUT=""
